@@ -30,8 +30,388 @@ structure BaseFacts (b : String) : Prop where
   optInner : String.ofList ((("Optional[" ++ b ++ "]").toList.drop 9).dropLast) = b
   optPrefix : (startsWith ("Optional[" ++ b ++ "]") "Optional[" && endsWith ("Optional[" ++ b ++ "]") "]") = true
   requiredLower : requiredLower.contains (String.ofList (Py.lower b.toList)) = (b != "bool")
+  optFold : (["Optional", b].foldl stepName (none, none, some "str")) = (some false, none, some b)
 
 theorem baseFacts {b : String} (h : isSimple b = true) : BaseFacts b := by
   rcases simple_cases h with rfl | rfl | rfl | rfl | rfl <;> constructor <;> decide
+
+/-! ## one parameter: emit -/
+
+/-- values `set_value` writes so that `get_value` reads them back after render + re-read -/
+def argValOK : Default → Bool
+  | .str s => !(decide (s.toList.length > 2) && quotedLike s) && !codeQuoted s
+  | .float r => okNumRepr r
+  | .complex r => okNumRepr r
+  | _ => true
+
+theorem okArgparseParam_facts {kv : String × Param} (h : okArgparseParam kv = true) :
+    okName kv.1 = true ∧ ∃ t d, kv.2.typ = some t ∧ kv.2.default = some (.val d) ∧ isSimple (baseOf t) = true ∧
+      d.typeName = baseOf t ∧ (t = baseOf t ∨ t = "Optional[" ++ baseOf t ++ "]") ∧ argValOK d = true := by
+  obtain ⟨n, doc, typ, dflt⟩ := kv
+  unfold okArgparseParam at h
+  simp only [Bool.and_eq_true] at h
+  refine ⟨h.1, ?_⟩
+  cases typ with
+  | none => simp at h
+  | some t =>
+    cases dflt with
+    | none => simp at h
+    | some dv =>
+      cases dv with
+      | node e => simp at h
+      | val d =>
+        have h2 := h.2
+        simp only [Bool.and_eq_true, beq_iff_eq, Bool.or_eq_true] at h2
+        refine ⟨t, d, rfl, rfl, h2.1.1.1, h2.1.1.2, h2.1.2, ?_⟩
+        unfold argValOK
+        cases d <;> first | rfl | exact h2.2
+
+theorem argVal_back {d : Default} (h : argValOK d = true) : getValue (setValue d).reparse = .val d := by
+  cases d with
+  | str s =>
+    simp only [argValOK, Bool.and_eq_true, Bool.not_eq_true'] at h
+    have : setValueStr s = s := by unfold setValueStr; simp [h.1]
+    simp [setValue, this, Expr.reparse, getValue]
+  | int i => exact gv_const _ rfl
+  | float r => exact gv_const _ h
+  | complex r => exact gv_const _ h
+  | bool b => exact gv_const _ rfl
+
+theorem argVal_notCode {d : Default} (h : argValOK d = true) : d.isCode = false := by
+  cases d with
+  | str s => simp only [argValOK, Bool.and_eq_true, Bool.not_eq_true'] at h; simpa [Default.isCode] using h.2
+  | _ => rfl
+
+theorem inferTypeAndDefault_plain (env : Env) (d : Default) (ty : Option String) (h : d.isCode = false) :
+    inferTypeAndDefault env (some d) ty = .ok (some d, some d.typeName) := by
+  unfold inferTypeAndDefault
+  simp [h, pure, Except.pure]
+
+theorem resolveArg_simple (n t : String) (hb : BaseFacts t) :
+    resolveArg n t true = .ok { action := none, choices := none, required := true, typ := some t } := by
+  unfold resolveArg
+  simp only [hb.simple, ↓reduceIte, pure, Except.pure, bind, Except.bind, Option.getD_some, hb.requiredLower]
+  by_cases h : t = "bool" <;> simp [h]
+
+theorem resolveArg_optional (n b : String) (hb : BaseFacts b) (hn : endsWith n "kwargs" = false) :
+    resolveArg n ("Optional[" ++ b ++ "]") true = .ok { action := none, choices := none, required := false, typ := some b } := by
+  unfold resolveArg
+  simp only [hb.optNotSimple, Bool.false_eq_true, ↓reduceIte, hb.optNotDict, hn, Bool.or_self, hb.optNotClass, hb.optNonempty, hb.optNames,
+    hb.optConsts, hb.optFold, pure, Except.pure, bind, Except.bind]
+  simp
+
+/-- the `add_argument` call of an admissible parameter -/
+def addArgOf (kv : String × Param) : AddArg :=
+  let t := kv.2.typ.getD ""
+  let b := baseOf t
+  { name := kv.1
+    typ := if b == "str" then none else some b
+    choices := none
+    action := none
+    help := match kv.2.doc with | some d => if d.toList.isEmpty then none else some d | none => none
+    required := t == b
+    default := (userD kv.2).map setValue }
+
+theorem baseOf_simple {t : String} (hb : BaseFacts t) : baseOf t = t := by
+  unfold baseOf; simp [hb.notOptPrefix]
+
+theorem baseOf_optional {b : String} (hb : BaseFacts b) : baseOf ("Optional[" ++ b ++ "]") = b := by
+  unfold baseOf; simp only [hb.optPrefix, ↓reduceIte]; exact hb.optInner
+
+theorem opt_ne_base {b : String} (hb : BaseFacts b) : ("Optional[" ++ b ++ "]" == b) = false := by
+  simp only [beq_eq_false_iff_ne, ne_eq]
+  intro h
+  have h1 := hb.optNotSimple
+  rw [h, hb.simple] at h1
+  cases h1
+
+/-- the `type=` keyword: omitted for `str` -/
+def typKw (b : String) : Option String :=
+  if (some b == some "pickle.loads") = true then some b else if (some b == some "str" && (none : Option String) == none) = true then none else some b
+
+theorem typKw_facts {b : String} (h : isSimple b = true) :
+    typKw b = (if (b == "str") = true then none else some b) ∧ (typKw b == some "pickle.loads" || typKw b == some "loads") = false ∧
+    (typKw b).map (fun t => if (t == "globals().__getitem__") = true then "str" else t) = (if (b == "str") = true then none else some b) := by
+  rcases simple_cases h with rfl | rfl | rfl | rfl | rfl <;> decide
+
+theorem help_eq (doc : Option String) : setValueStr (doc.getD "") = doc.getD "" →
+    (if (doc.getD "").toList.isEmpty = true then none else some (setValueStr (doc.getD ""))) =
+      (match doc with | some d => if d.toList.isEmpty = true then none else some d | none => none) := by
+  intro hsv
+  rw [hsv]
+  cases doc with
+  | none => rfl
+  | some d => rfl
+
+theorem param2argparse_ok (env : Env) (cfg : Cfg) (kv : String × Param) (h : okArgparseParam kv = true)
+    (hH : argparseParamHyp env cfg kv = true) :
+    param2argparse env cfg.emitDefaultDoc kv = .ok (addArgOf kv) := by
+  obtain ⟨hn, t, d, htyp, hd, hsb, htn, hto, hval⟩ := okArgparseParam_facts h
+  obtain ⟨hnk, _⟩ := okName_facts hn
+  simp only [Bool.or_eq_false_iff] at hnk
+  have hb := baseFacts hsb
+  unfold argparseParamHyp at hH
+  simp only [Bool.and_eq_true, beq_iff_eq] at hH
+  obtain ⟨hed, hsv⟩ := hH
+  obtain ⟨n, p⟩ := kv
+  simp only at htyp hd hed hsv hnk
+  have hhelp := help_eq p.doc hsv
+  obtain ⟨hk1, hk2, hk3⟩ := typKw_facts hsb
+  unfold typKw at hk1 hk2 hk3
+  unfold param2argparse addArgOf
+  simp only [hd, userDefault, htyp, Option.getD_some, Option.isSome_some, hed, pure, Except.pure, bind, Except.bind, userD, Option.map_some]
+  rcases hto with hto | hto
+  · -- a scalar type
+    have hbt : BaseFacts t := by rw [hto]; exact hb
+    rw [resolveArg_simple n t hbt]
+    simp only [inferTypeAndDefault_plain env d (some t) (argVal_notCode hval), htn, ← hto]
+    simp only [hhelp]
+    clear hk1 hk2 hk3 hto hsb htn hb
+    rcases simple_cases hbt.simple with rfl | rfl | rfl | rfl | rfl <;> simp
+  · -- Optional[scalar]
+    rw [hto, resolveArg_optional n (baseOf t) hb hnk.1]
+    simp only [inferTypeAndDefault_plain env d (some (baseOf t)) (argVal_notCode hval), htn]
+    simp only [hhelp, baseOf_optional hb, opt_ne_base hb]
+    clear hk1 hk2 hk3 hto htn
+    generalize baseOf t = b at *
+    rcases simple_cases hsb with rfl | rfl | rfl | rfl | rfl <;> simp
+
+/-! ## one parameter: parse -/
+
+/-- the entry `parse_out_param` reads back -/
+def backOf (kv : String × Param) : String × Param := (kv.1, { doc := (addArgOf kv).help, typ := kv.2.typ, default := kv.2.default })
+
+theorem parseOutParam_back (env : Env) (kv : String × Param) (h : okArgparseParam kv = true) :
+    parseOutParam env { (addArgOf kv) with default := (addArgOf kv).default.map Expr.reparse } = .ok (backOf kv) := by
+  obtain ⟨hn, t, d, htyp, hd, hsb, htn, hto, hval⟩ := okArgparseParam_facts h
+  have hb := baseFacts hsb
+  obtain ⟨n, p⟩ := kv
+  simp only at htyp hd
+  unfold parseOutParam backOf addArgOf
+  simp only [htyp, Option.getD_some, userD, hd, Option.map_some, argVal_back hval, pure, Except.pure, bind, Except.bind]
+  have happ : ((none : Option String) == some "append") = false := rfl
+  simp only [happ, Bool.false_eq_true, ↓reduceIte]
+  by_cases hs : baseOf t = "str"
+  · simp only [hs, beq_self_eq_true, ↓reduceIte]
+    rcases hto with hto | hto
+    · rw [hs] at hto; subst hto; simp
+    · rw [hs] at hto; subst hto; simp; decide
+  · have hs' : (baseOf t == "str") = false := by simpa using hs
+    simp only [hs', Bool.false_eq_true, ↓reduceIte, hb.notLoads]
+    rcases hto with hto | hto
+    · have : (t == baseOf t) = true := by simpa using hto
+      simp [this, ← hto]
+    · have hne : (t == baseOf t) = false := by rw [hto]; simpa [baseOf_optional hb] using opt_ne_base hb
+      simp only [hne, Bool.not_false, Bool.true_and, hb.noOptional, ↓reduceIte]
+      simp [← hto]
+
+theorem backOf_view (kv : String × Param) : (backOf kv).2.view (backOf kv).1 = kv.2.view kv.1 := by
+  unfold backOf addArgOf Param.view
+  simp only [PV.mk.injEq, true_and]
+  cases hd : kv.2.doc with
+  | none => rfl
+  | some d =>
+    by_cases he : d.toList.isEmpty = true
+    · have : d = "" := by
+        apply toList_inj'
+        simpa using he
+      subst this
+      simp [normDoc_empty]
+    · simp [he]
+
+/-! ## the loop over the `add_argument` calls -/
+
+theorem argparseStep_add (env : Env) (docIR : IR) (raw : String) (acc : IR) (kv : String × Param) (h : okArgparseParam kv = true)
+    (hk : dhas acc.params kv.1 = false) :
+    argparseStep env docIR raw acc (Stmt.reparse (.addArg (addArgOf kv))) = .ok { acc with params := acc.params ++ [backOf kv] } := by
+  have hname : (backOf kv).1 = kv.1 := rfl
+  simp only [Stmt.reparse, argparseStep, parseOutParam_back env kv h, bind, Except.bind, hname, hk, Bool.false_eq_true, ↓reduceIte, pure, Except.pure]
+  rfl
+
+theorem argparseFold (env : Env) (docIR : IR) (raw : String) : ∀ (L : List (String × Param)) (acc : IR),
+    (∀ kv ∈ L, okArgparseParam kv = true) → (dkeys acc.params ++ dkeys L).Nodup →
+    (L.map (fun kv => Stmt.reparse (.addArg (addArgOf kv)))).foldlM (argparseStep env docIR raw) acc =
+      .ok { acc with params := acc.params ++ L.map backOf }
+  | [], acc, _, _ => by simp [pure, Except.pure]
+  | kv :: L, acc, hok, hnd => by
+    have hk : dhas acc.params kv.1 = false := by
+      apply dhas_false_of_not_mem
+      intro hm
+      have := (List.nodup_append.mp hnd).2.2 kv.1 hm kv.1 (by simp [dkeys])
+      exact this rfl
+    rw [List.map_cons, List.foldlM_cons, argparseStep_add env docIR raw acc kv (hok kv (List.mem_cons_self ..)) hk]
+    simp only [bind, Except.bind]
+    have ih := argparseFold env docIR raw L { acc with params := acc.params ++ [backOf kv] }
+      (fun x hx => hok x (List.mem_cons_of_mem _ hx))
+      (by
+        have : dkeys (acc.params ++ [backOf kv]) ++ dkeys L = dkeys acc.params ++ dkeys (kv :: L) := by
+          simp [dkeys, backOf]
+        simp only [this]; exact hnd)
+    rw [ih]
+    simp [List.append_assoc]
+
+/-! ## the return entry -/
+
+theorem tupleType_facts (t : String) :
+    hasChar (tupleParserPrefix ++ t ++ "]") '[' = true ∧ startsWith (tupleParserPrefix ++ t ++ "]") tupleParserPrefix = true ∧
+    endsWith (tupleParserPrefix ++ t ++ "]") "]" = true ∧
+    String.ofList (((tupleParserPrefix ++ t ++ "]").toList.drop tupleParserPrefix.toList.length).dropLast) = t := by
+  have e : "]".toList = [']'] := by decide
+  refine ⟨?_, ?_, ?_, ?_⟩
+  · unfold hasChar
+    simp only [String.toList_append, List.contains_eq_mem, List.mem_append, decide_eq_true_eq]
+    left; left; decide
+  · unfold startsWith
+    simp only [String.toList_append, List.append_assoc]
+    exact List.isPrefixOf_iff_prefix.mpr (List.prefix_append _ _)
+  · unfold endsWith
+    simp only [String.toList_append, e, List.reverse_append, List.reverse_cons, List.reverse_nil, List.nil_append, List.singleton_append,
+      List.cons_append]
+    simp [List.isPrefixOf]
+  · apply toList_inj'
+    simp only [String.toList_append, e, String.toList_ofList, List.append_assoc, List.drop_left]
+    simp
+
+theorem parseReturn_ok (env : Env) (docIR : IR) (raw : String) (e : Expr) (t d : String)
+    (htyp : (docIR.returns.bind (·.typ)) = some (tupleParserPrefix ++ t ++ "]")) (hline : returnLineDoc env raw = some d) :
+    parseReturn env docIR raw e = .ok { doc := some d, default := some (.val (.str e.text)), typ := some t } := by
+  obtain ⟨h1, h2, h3, h4⟩ := tupleType_facts t
+  unfold parseReturn
+  cases hr : docIR.returns with
+  | none => simp [hr] at htyp
+  | some rt =>
+    simp only [hr, Option.bind_some] at htyp
+    simp only [htyp, h1, h2, h3, h4, ↓reduceIte, Bool.and_self, pure, Except.pure, bind, Except.bind]
+    unfold returnLineDoc at hline
+    cases hf : (Py.split1 raw.toList '\n').find? (fun l => Py.startsWith (Py.lstrip l) ":return".toList) with
+    | none => rw [hf] at hline; cases hline
+    | some line =>
+      rw [hf] at hline
+      simp only [Option.some.injEq] at hline
+      simp only [hline]
+
+/-! ## the round trip -/
+
+def argparseRoundTrip (env : Env) (cfg : Cfg) (ir : IR) : Except String (List PV × Option PV) := do
+  let t ← emitArgparse env cfg ir
+  let ir' ← parseArgparse env t.reparse
+  pure ir'.view
+
+/-- the statement's normalisation: the return entry survives only with a default -/
+def normArgparse (ir : IR) : IR := { ir with returns := ir.returns.bind (fun r => if r.default.isSome then some r else none) }
+
+/-- the `return` statement the argparse emitter writes for an admissible interface -/
+def apRetStmt (env : Env) (ir : IR) : Stmt :=
+  match ir.returns.bind (·.default) with
+  | some (.val (.str s)) => (match env.pyExpr s with | some e => .retTuple e | none => .retParser)
+  | _ => .retParser
+
+theorem okArgparseReturn_facts {env : Env} {r : Param} (h : okArgparseReturn env r = true) :
+    r.default = none ∨ ∃ s e t, r.default = some (.val (.str s)) ∧ codeQuoted s = false ∧ env.pyExpr s = some e ∧ e.text = s ∧
+      e.reparse = e ∧ r.typ = some t := by
+  unfold okArgparseReturn at h
+  cases hd : r.default with
+  | none => left; rfl
+  | some dv =>
+    right
+    cases dv with
+    | node e => simp [hd] at h
+    | val dflt =>
+      cases dflt with
+      | str s =>
+        simp only [hd, Bool.and_eq_true, Bool.not_eq_true'] at h
+        obtain ⟨⟨hnc, hexpr⟩, htypok⟩ := h
+        cases hpe : env.pyExpr s with
+        | none => simp [hpe] at hexpr
+        | some e =>
+          simp only [hpe, Bool.and_eq_true, beq_iff_eq] at hexpr
+          cases ht : r.typ with
+          | none => simp [ht] at htypok
+          | some t => exact ⟨s, e, t, rfl, hnc, hpe, hexpr.1, hexpr.2, rfl⟩
+      | int i => simp [hd] at h
+      | float x => simp [hd] at h
+      | complex x => simp [hd] at h
+      | bool b => simp [hd] at h
+
+theorem argparseReturn_ok (env : Env) (ir : IR) (h : match ir.returns with | some r => okArgparseReturn env r = true | none => True) :
+    argparseReturn env ir = .ok (apRetStmt env ir) := by
+  unfold argparseReturn apRetStmt
+  cases hr : ir.returns with
+  | none => simp [pure, Except.pure]
+  | some r =>
+    simp only [hr] at h
+    rcases okArgparseReturn_facts h with hd | ⟨s, e, t, hd, hnc, hpe, _, _, _⟩
+    · simp [hd, pure, Except.pure]
+    · simp [hd, hnc, hpe, pure, Except.pure]
+
+theorem parseArgparse_shape (env : Env) (name raw dd : String) (adds : List Stmt) (ret : Stmt) (annot : Option String) :
+    parseArgparse env (.fn name { args := [{ name := "argument_parser" }] } (.doc raw :: .descr (.val (.str dd)) :: (adds ++ [ret])) annot) =
+      (do let acc ← adds.foldlM (argparseStep env (env.docParse .argparse raw) raw)
+                      { name := some name, type := some "static", doc := dd, params := [], returns := none }
+          argparseStep env (env.docParse .argparse raw) raw acc ret) := by
+  have hfound : foundTypeOf [({ name := "argument_parser" } : Arg)] = "static" := by decide
+  have hdescr : argparseStep env (env.docParse .argparse raw) raw
+      { name := some name, type := some "static", doc := "", params := [], returns := none } (.descr (.val (.str dd))) =
+      .ok { name := some name, type := some "static", doc := dd, params := [], returns := none } := rfl
+  simp only [parseArgparse, splitDoc, hfound, List.foldlM_cons, hdescr, pure, Except.pure, bind, Except.bind, List.foldlM_append,
+    List.foldlM_nil]
+  cases List.foldlM (argparseStep env (env.docParse .argparse raw) raw)
+      { name := some name, type := some "static", doc := dd, params := [], returns := none } adds with
+  | error e => rfl
+  | ok acc => simp only []; cases argparseStep env (env.docParse .argparse raw) raw acc ret <;> rfl
+
+theorem argparse_roundtrip (env : Env) (cfg : Cfg) (ir : IR)
+    (hD : inD02Argparse env ir = true) (hH : argparseHyp env cfg ir = true) :
+    argparseRoundTrip env cfg ir = .ok (normArgparse ir).view := by
+  unfold inD02Argparse at hD
+  simp only [Bool.and_eq_true, List.all_eq_true] at hD
+  obtain ⟨⟨⟨hnd, _⟩, hall⟩, hret⟩ := hD
+  have hnd : (dkeys ir.params).Nodup := by simpa [namesOk] using hnd
+  have hret' : match ir.returns with | some r => okArgparseReturn env r = true | none => True := by
+    cases hr : ir.returns with
+    | none => trivial
+    | some r => simpa [hr] using hret
+  unfold argparseHyp at hH
+  simp only [Bool.and_eq_true, List.all_eq_true] at hH
+  obtain ⟨hpar, hrh⟩ := hH
+  unfold argparseRoundTrip emitArgparse
+  rw [mapM_ok (param2argparse env cfg.emitDefaultDoc) addArgOf ir.params (fun kv hkv => param2argparse_ok env cfg kv (hall kv hkv) (hpar kv hkv)),
+    argparseReturn_ok env ir hret']
+  simp only [bind, Except.bind, pure, Except.pure, Top.reparse, List.cons_append, List.nil_append, List.map_cons, List.map_append, List.map_nil,
+    Stmt.reparse, List.map_map]
+  rw [parseArgparse_shape]
+  have hfold := argparseFold env (env.docParse .argparse (setValueStr (env.docEmit (argparseDocCfg cfg) (argparseDocIR ir))))
+    (setValueStr (env.docEmit (argparseDocCfg cfg) (argparseDocIR ir))) ir.params
+    { name := some "set_cli_args", type := some "static", doc := setValueStr ir.doc, params := [], returns := none } hall
+    (by simpa [dkeys] using hnd)
+  simp only [List.nil_append] at hfold
+  have hcomp : (Stmt.reparse ∘ Stmt.addArg ∘ addArgOf) = (fun kv => Stmt.reparse (.addArg (addArgOf kv))) := rfl
+  rw [hcomp, hfold]
+  simp only [bind, Except.bind]
+  -- the view of the parameters read back
+  have hviews : (ir.params.map backOf).map (fun kv => kv.2.view kv.1) = ir.params.map (fun kv => kv.2.view kv.1) := by
+    rw [List.map_map]; apply List.map_congr_left; intro kv _; exact backOf_view kv
+  -- the return statement
+  cases hr : ir.returns with
+  | none =>
+    simp only [apRetStmt, hr, Option.bind_none, Stmt.reparse, argparseStep, pure, Except.pure, IR.view, normArgparse, hviews, Option.map_none]
+  | some r =>
+    simp only [hr] at hret'
+    rcases okArgparseReturn_facts hret' with hd | ⟨s, e, t, hd, hnc, hpe, htext, hrep, ht⟩
+    · simp only [apRetStmt, hr, Option.bind_some, hd, Stmt.reparse, argparseStep, pure, Except.pure, IR.view, normArgparse, hviews,
+        Option.isSome_none, Bool.false_eq_true, ↓reduceIte, Option.map_none]
+    · unfold argparseReturnHyp at hrh
+      simp only [hr, hd, ht, Bool.and_eq_true, beq_iff_eq] at hrh
+      obtain ⟨hdt, hline⟩ := hrh
+      cases hl : returnLineDoc env (setValueStr (env.docEmit (argparseDocCfg cfg) (argparseDocIR ir))) with
+      | none => simp [hl] at hline
+      | some dline =>
+        simp only [hl, beq_iff_eq] at hline
+        simp only [apRetStmt, hr, Option.bind_some, hd, hpe, Stmt.reparse, hrep, argparseStep, parseReturn_ok env _ _ e t dline hdt hl,
+          bind, Except.bind, pure, Except.pure, IR.view, normArgparse, hviews, Option.isSome_some, ↓reduceIte, Option.map_some, Param.view,
+          htext, Option.bind_some, hline, ht]
+        have hv2 := hviews
+        simp only [Param.view] at hv2
+        rw [hv2]
 
 end Iface
